@@ -35,7 +35,8 @@ ASSUMPTIONS = ["linear solves are done by the shims' dense LU with partial pivot
 
 def make_case(rng):
     surface = rng.random() < 0.4
-    net = chem.balanced_network(rng, rng.randint(4, 9), rng.randint(2, 12), surface=surface, labels=True)
+    upper = rng.random() < 0.25
+    net = chem.balanced_network(rng, rng.randint(4, 9), rng.randint(2, 12), surface=surface, labels=not upper)
     names = {s["name"] for s in net["species"]}
     elements = sorted({e for s in net["species"] for e in s["comp"]} | {"H"})
     req = []
@@ -52,7 +53,23 @@ def make_case(rng):
             net["species"].append(chem.make_species([(e, 1)]))
             req.append(e)
     grains = rng.random() < 0.35
-    case = {"net": net, "required_atoms": req, "grains": grains, "element_without_atom": skip, "alphas": chem.distinct_alphas(rng, len(net["reactions"]) + 2), "entry": "api"}
+    spelling = None
+    if upper:
+        # upper-case element symbols through the Python API WITHOUT a replacement table (HE, MG, SI stay as they are): their mass numbers are
+        # not tabulated, the renormalisation falls back to unit weights and must stay finite and exact
+        un = chem.upper_variant(net)
+        if un is not None:
+            inv = {v: k for k, v in chem.UPPER_REPLACEMENT.items()}
+            for sp_ in un["species"]:
+                sp_["comp"] = {inv.get(e, e).upper(): c for e, c in sp_["comp"].items()}
+                if sp_["electron"]:
+                    sp_["alias"] = "EM"
+            net = un
+            req = [inv.get(e, e).upper() for e in req]
+            skip = inv.get(skip, skip).upper() if skip else skip
+            spelling = "upper_noreplace"
+            grains = False
+    case = {"net": net, "spelling": spelling, "required_atoms": req, "grains": grains, "element_without_atom": skip, "alphas": chem.distinct_alphas(rng, len(net["reactions"]) + 2), "entry": "api"}
     nsp = len(net["species"]) + (3 if grains else 0)
     pts = []
     for i in range(8):
@@ -75,6 +92,11 @@ def build_net(case, work):
     from naunet.reactiontype import ReactionType as RT
     from naunet.species import Species
     Species.reset()
+    kw = {}
+    if case.get("spelling") == "upper_noreplace":
+        Species.set_known_elements(list(chem.UPPER_ELEMENTS))
+        Species.set_known_pseudoelements(list(chem.UPPER_PSEUDO))
+        kw = dict(elements=list(chem.UPPER_ELEMENTS), pseudo_elements=list(chem.UPPER_PSEUDO))
     S.provide_binding_energies(case["net"])
     rl = []
     for r, a in zip(case["net"]["reactions"], case["alphas"]):
@@ -83,7 +105,7 @@ def build_net(case, work):
         rl.append(Reaction(["H+", "GRAIN-"], ["H", "GRAIN0"], alpha=1.0, reaction_type=RT.GAS_TWOBODY))
         rl.append(Reaction(["e-", "GRAIN0"], ["GRAIN-"], alpha=1.0, reaction_type=RT.GAS_TWOBODY))
         rl.append(Reaction(["H+", "GRAIN0"], ["H", "GRAIN+"], alpha=1.0, reaction_type=RT.GAS_TWOBODY))
-    return Network(rl, required_species=case["required_atoms"] or None)
+    return Network(rl, required_species=case["required_atoms"] or None, **kw)
 
 
 def run_case(case, ctx):
@@ -102,6 +124,8 @@ def run_case(case, ctx):
         tags.add("grain_species")
     if case.get("element_without_atom"):
         tags.add("element_without_atom")
+    if case.get("spelling"):
+        tags.add("upper_case_without_replacement")
     if any(s["surface"] for s in species):
         tags.add("ice_species")
     if any("D" in s["comp"] for s in species):
